@@ -130,6 +130,11 @@ class Fixture:
             (M, "K.m", {"self": T(M, "K"), "a": INT}, INT, None),
             (M, "gen", {"n": INT}, None, INT),
             (M, "f", {"a": INT, "zzz_gone_param": STR}, INT, None),  # vanished parameter name: still valid
+            # ... one that sorts BEFORE the surviving names in the stored row, whose other types no other row supplies
+            (M, "K.m", {"_gone_param": STR, "a": T("builtins", "float"), "self": T(M, "K")}, T("builtins", "bytes"), None),
+            # two distinct rows that decode to EQUAL traces (the same call recorded with the union members in another order)
+            (M, "gen", {"n": INT}, None, T("typing", "Union", [INT, STR])),
+            (M, "gen", {"n": INT}, None, T("typing", "Union", [STR, INT])),
         ]
 
     def stale_rows(self):
@@ -241,6 +246,15 @@ def run_case(ctx, fx, rowspec, cmd, verbose, qual, target_mod="mod"):
     if ref["exc"] is not None or ref["rc"] != 0:
         # the reference is the same command on the decodable rows alone (possibly none): it must succeed too
         return ctx.fail(f"C10/command-fails-on-decodable-rows-alone", spec, f"`{cmd} {target}` on the {n_valid} valid rows alone: {ref['exc']!r} rc={ref['rc']} {ref['err'][:300]}")
+    if cmd == "stub" and not verbose and any("gone_param" in k for r, _ in valid_only for k in r[2]):
+        # a parameter name that no longer exists is skipped, the rest of its row counts: the output equals that of the same rows
+        # with those names taken out
+        fx.write_db([((r[0], r[1], {k: v for k, v in r[2].items() if "gone_param" not in k}, r[3], r[4]), d) for r, d in valid_only])
+        cleaned = fx.command(cmd, target, verbose)
+        ctx.label("vanished-parameter-names-vs-cleaned-rows")
+        if cleaned["exc"] is None and cleaned["rc"] == 0 and cleaned["out"] != ref["out"]:
+            return ctx.fail("C10/output-differs-from-decodable-rows-alone", spec + ["vanished-parameter"],
+                            f"`{cmd} {target}`: rows that name a parameter which no longer exists\n{ref['out'][:600]}\nthe same rows without those names\n{cleaned['out'][:600]}")
     if got["out"] != ref["out"] or got["file"] != ref["file"]:
         return ctx.fail("C10/output-differs-from-decodable-rows-alone", spec,
                         f"`{cmd} {target}`: with stale rows\n{got['out'][:600]}\nvalid rows alone\n{ref['out'][:600]}")
@@ -314,7 +328,8 @@ def tables(ctx, fx):
                 idx += 1
                 if idx % ctx.nshards != ctx.shard:
                     continue
-                rs = list(base)
+                # odd positions: around the rows with a vanished parameter that sorts first and the two rows that decode to equal traces
+                rs = list(base) if pos % 2 == 0 else [["v", 6, 0], ["v", 7, 1], ["v", 8, 1], ["v", 0, 2]]
                 rs.insert(pos, ["s", kind, pos % 3])
                 try:
                     run_case(ctx, fx, rs, cmd, verbose, qual)
@@ -357,7 +372,7 @@ def shard(ctx):
             gone_module_cases(ctx, fx)
 
         def factory(ctx):
-            row = st.one_of(st.tuples(st.just("v"), st.integers(0, 5), st.integers(0, 3)).map(list),
+            row = st.one_of(st.tuples(st.just("v"), st.integers(0, 8), st.integers(0, 3)).map(list),
                             st.tuples(st.just("s"), st.sampled_from(kinds), st.integers(0, 3)).map(list))
 
             @given(st.lists(row, max_size=10), st.sampled_from(["stub", "stub", "apply", "diff"]), st.booleans(),
